@@ -795,4 +795,83 @@ theorem reader_results_WF (O : Oracles) (fn text : Bytes) : WFnoCR O (readAll O 
   simp only [WFnoCR, Bool.and_eq_true, List.all_eq_true]
   exact ⟨hrecs, nodup_distinctPairs _ hu.nodup⟩
 
+
+/-! ### iteration counts the reader delivers come from its `Atoi` -/
+
+def ItersFrom (O : Oracles) : Rec → Prop
+  | .result res => ∃ f, O.atoi f = .ok res.iters
+  | _ => True
+
+theorem parseBenchmarkLine_iters (O : Oracles) (line name : Bytes) (iters : Int) (vals : List Val)
+    (h : parseBenchmarkLine O line = .ok name iters vals) : ∃ f, O.atoi f = .ok iters := by
+  unfold parseBenchmarkLine at h
+  simp only at h
+  split at h
+  · exact absurd h (by simp)
+  · split at h
+    · exact absurd h (by simp)
+    · rename_i f fs hf
+      split at h
+      · exact absurd h (by simp)
+      · rename_i it hat
+        split at h
+        · exact absurd h (by simp)
+        · simp only [BenchOut.ok.injEq] at h
+          exact ⟨f, by rw [hat, h.2.1]⟩
+
+theorem unitRecs_noResult (fn : Bytes) (n : Nat) (unit tidy : Bytes) : ∀ (fs : List Bytes) (units : UnitMap),
+    ∀ r ∈ (unitFields fn n unit tidy units fs).2, ∀ res, r ≠ .result res := by
+  intro fs
+  induction fs with
+  | nil => intro units r hr; simp [unitFields] at hr
+  | cons f fs ih =>
+    intro units r hr res
+    simp only [unitFields, List.mem_append] at hr
+    rcases hr with hr | hr
+    · unfold unitField at hr
+      simp only at hr
+      split at hr
+      · simp only [List.mem_singleton] at hr; subst hr; simp
+      · split at hr
+        · split at hr
+          · simp at hr
+          · simp only [List.mem_singleton] at hr; subst hr; simp
+        · simp only [List.mem_singleton] at hr; subst hr; simp
+    · exact ih _ r hr res
+
+theorem scanLine_iters (O : Oracles) (st : RState) (l : Bytes) : ∀ r ∈ (scanLine O st l).2, ItersFrom O r := by
+  intro r hr
+  unfold scanLine at hr
+  simp only at hr
+  split at hr
+  · split at hr
+    · rename_i name iters vals hp
+      simp only [List.mem_singleton] at hr
+      subst hr
+      exact parseBenchmarkLine_iters O l name iters vals hp
+    · simp at hr
+    · simp only [List.mem_singleton] at hr; subst hr; trivial
+  · split at hr
+    · cases r with
+      | result res =>
+        exfalso
+        unfold parseUnitLine at hr
+        split at hr
+        · simp at hr
+        · exact unitRecs_noResult _ _ _ _ _ _ _ hr res rfl
+      | unit u => trivial
+      | err e => trivial
+    · split at hr <;> simp at hr
+
+theorem readLines_iters (O : Oracles) : ∀ (ls : List Bytes) (st : RState), ∀ r ∈ readLines O st ls, ItersFrom O r := by
+  intro ls
+  induction ls with
+  | nil => intro st r hr; simp [readLines] at hr
+  | cons l ls ih =>
+    intro st r hr
+    simp only [readLines, List.mem_append] at hr
+    rcases hr with hr | hr
+    · exact scanLine_iters O st l r hr
+    · exact ih _ r hr
+
 end C01
